@@ -203,7 +203,7 @@ func (p *Program) absKey(c *Contract) string {
 	if c.PkgPath == "" {
 		return k
 	}
-	for _, pre := range []string{"funcfield:", "functype:"} {
+	for _, pre := range []string{"funcfield:", "functype:", "funcparam:"} {
 		if strings.HasPrefix(k, pre) {
 			rest := strings.TrimPrefix(k, pre)
 			if strings.Contains(rest, "/") {
@@ -222,6 +222,10 @@ func (p *Program) absKey(c *Contract) string {
 				return "(" + c.PkgPath + "." + m[1] + ")." + m[2]
 			}
 		}
+	}
+	if strings.Contains(k, "/") {
+		// already absolute: an assumed contract for a function of another package
+		return k
 	}
 	return c.PkgPath + "." + k
 }
@@ -265,7 +269,7 @@ func (p *Program) missingTargets(prop string) []string {
 		if c.Trusted || c.Oracle {
 			continue
 		}
-		if strings.HasPrefix(key, "funcfield:") || strings.HasPrefix(key, "functype:") {
+		if strings.HasPrefix(key, "funcfield:") || strings.HasPrefix(key, "functype:") || strings.HasPrefix(key, "funcparam:") {
 			continue
 		}
 		for _, pr := range c.Props {
